@@ -285,8 +285,9 @@ Print Assumptions c11_table_interface.
 
 (* Tie to the source.  translate/c11_symbolize.py re-reads SymbolFile::fill_symbol, find_nearest_public,
    Function::{memory_range, get_outermost_sourceloc, get_innermost_sourceloc, get_inlinee_at_depth},
-   finish_item, the field order of Inlinee / PublicSymbol, Symbolizer::fill_symbol / get_symbol_at_address and
-   fill_source_line_info on every run; the statement structure must match its templates (else it aborts) and
+   finish_item, insert_win_stack_info, StackInfoWin::memory_range, the merge step of the parser-local
+   into_rangemap_safe (C08's [merge_step]), the field order of Inlinee / PublicSymbol, Symbolizer::fill_symbol /
+   get_symbol_at_address and fill_source_line_info on every run; the statement structure must match its templates (else it aborts) and
    the comparison operators, operands, constants, STACK WIN table order, lookup keys, start depth and stopping
    arm of the depth loop, .rev() / .reverse() are translated into the functions of Gen/C11Sym.v.  Those are the
    model all theorems of this file speak about. *)
@@ -303,6 +304,8 @@ Theorem c11_source_tie :
   (forall ls, C11Sym.g_line_entries ls = line_entries ls) /\
   (forall l, filter C11Sym.g_inl_keep l = keep_inls true l) /\
   (forall e, C11Sym.g_inl_key e = inl_key e) /\ (forall q, C11Sym.g_pub_key q = pub_key q) /\
+  (forall acc w, C11Sym.g_win_insert acc w = win_insert acc w) /\
+  (forall V (eqb : V -> V -> bool) acc rv, C11Sym.g_merge_step eqb acc rv = merge_step eqb acc rv) /\
   (forall a, C11Sym.g_gsaa_instr a = a) /\ C11Sym.g_gsaa_base = 0 /\ (forall i, C11Sym.g_module_key i = i) /\
   (forall o, C11Sym.g_frame_inlines (o_inl o) = frame_inlines o).
 Proof. exact Tie.source_tie. Qed.
